@@ -1761,7 +1761,12 @@ def _derive(d: dict, kind: str) -> dict:
     h = hashlib.sha1(json.dumps([d["salt"], d["prog"]], sort_keys=True).encode()).hexdigest()
     rng = random.Random(int(h, 16))
     out = {"pick": rng.randrange(2**16), "around": rng.random() < 0.75}
-    if kind == "dag":
+    if kind == "simplify":  # one simplified_pipeline on a larger single-output DAG (several nested groups)
+        out["around"] = False
+        out["union"] = False
+        out["prog2"] = json.loads(json.dumps(PROG2_FAMILY[0]))
+        out["rw"] = [_rw_record(rng, "simplify")] + ([_rw_record(rng, rng.choice(["copy", "rename"]))] if rng.random() < 0.3 else [])
+    elif kind == "dag":
         out["union"] = rng.random() < 0.25
         out["prog2"] = json.loads(json.dumps(rng.choice(PROG2_FAMILY)))
         out["rw"] = expand_rw(rng, DAG_KINDS, True)
@@ -1808,10 +1813,34 @@ def campaigns(tier):
     mpc = st.fixed_dictionaries(
         {"salt": st.integers(0, 2**32 - 1), "prog": mp.map_programs(max_funcs=3, max_rank=2, storages=("dict",), max_size=2, **_MP_EXTRA)}
     ).map(lambda d: _derive(d, "map"))
+    simp = st.fixed_dictionaries(
+        {"salt": st.integers(0, 2**32 - 1),
+         "prog": dag_programs(max_funcs=7, min_funcs=4, allow_bound=False, allow_multi=False, allow_nullary=False,
+                              consistent_ignored_defaults=True, shuffle_names=True)}
+    ).map(lambda d: _derive(d, "simplify"))  # fmt: skip
     return [
+        Campaign("simplify", body_dag, simp, quick=1200, thorough=30000,
+                 describe="larger single-output DAGs (4-7 functions, output names not in dependency order) x simplified_pipeline"),
         Campaign("dag", body_dag, dag, quick=5000, thorough=120000, describe="DagPrograms x <=3 rewrites, pipeline(...) and map"),
         Campaign("map", body_map, mpc, quick=800, thorough=24000, describe="MapPrograms x <=3 rewrites under map"),
     ]
 
 
-PREDICATES = {}
+def _pred_nested_default_lost(case, failure) -> bool:
+    """C10 finding (nested-copy-drops-default-of-renamed-parameter), other manifestations: after nest -> rename, any
+    later operation that copies the NestedPipeFunc (another nest, copy, join, pickle, simplify) loses the default of the
+    renamed parameter; the call/map then reports it as a missing value / missing input."""
+    if "issing" not in failure.detail:
+        return False
+    ops = [r["op"] for r in case["data"].get("rw", [])]
+    if "nest" not in ops:
+        return False
+    i = ops.index("nest")
+    if "rename" not in ops[i + 1 :]:
+        return False
+    progs = [case["data"]["prog"]] + ([case["data"]["prog2"]] if case["data"].get("prog2") else [])
+    return any(fn.get("sig_defaults") or fn.get("pf_defaults") for pr in progs for fn in pr["funcs"])
+
+
+PREDICATES = {
+    "nested_default_lost_after_rename": _pred_nested_default_lost,}
